@@ -198,6 +198,47 @@ def judge(acc, seed, a, b, k, res):
                         'statuses': [a_status, b_status], 'jobs': jobs})
 
 
+def run_logout(world, acc, seed):
+    """A session that logged out is session state "none": the same cookie
+    jar, after GET /logout, creates no job any more."""
+    cfg = world.cfg
+    makers = [
+        ('admin-written', lambda: world.tx_client(cfg['admin'], True)),
+        ('user-written', lambda: world.tx_client(cfg['user'], False)),
+        ('admin-token', lambda: world.login_client('tok-admin')[0]),
+        ('user-token', lambda: world.login_client('tok-user')[0]),
+    ]
+    probes = [('POST', '/api/pull-requests/%d' % cfg['pr_ids'][0]),
+              ('POST', '/api/gwf/queues'),
+              ('DELETE', '/api/gwf/queues'),
+              ('POST', '/api/gwf/branches/development/9.9')]
+    for name, make in makers:
+        for method, target in probes:
+            client = make()
+            world.drain()
+            before = client.open(probes[0][1], method='POST', headers=JSON,
+                                 data='{}').status_code
+            world.drain()
+            out = client.open('/logout', method='GET').status_code
+            after = client.open(target, method=method, headers=JSON,
+                                data='{}').status_code
+            jobs = [_describe(j) for j in world.drain()]
+            acc.evals += 1
+            acc.count('c14c_logout_cells')
+            acc.nontrivial('logout|%s|%s %s' % (name, method, target))
+            if before != 202:
+                acc.inconc('c14 logout: the %s session was not accepted '
+                           'before logging out (%s)' % (name, before))
+                continue
+            if after not in (401, 403) or jobs:
+                acc.violation(
+                    'logged-out-session-still-creates-jobs',
+                    '%s session: accepted (202), GET /logout -> %s, then %s '
+                    '%s -> %s with jobs %s' % (name, out, method, target,
+                                               after, jobs),
+                    {'concurrent': True, 'logout': True, 'seed': seed})
+
+
 def run(acc, seed, shard, nshards, tier):
     cfg = c14_app.config(seed)
     world = c14_app.World('bitbucket', cfg)
@@ -209,6 +250,8 @@ def run(acc, seed, shard, nshards, tier):
                 acc.inconc('c14 concurrent: no session of kind %s' % kind)
                 return
         world.drain()
+        if shard == 0:
+            run_logout(world, acc, seed)
         pairs = [(a, b) for a in A for b in B]
         for i, (a, b) in enumerate(pairs):
             if i % nshards != shard:
@@ -234,6 +277,8 @@ def replay(w, acc):
     world = c14_app.World('bitbucket', cfg)
     c14_app._ACTIVE[0] = world
     try:
+        if w.get('logout'):
+            return run_logout(world, acc, w['seed'])
         A, B = requests_table(cfg)
         a = [x for x in A if x[0] == w['a']][0]
         b = [x for x in B if x[0] == w['b']][0]
